@@ -204,6 +204,8 @@ class Ctx:
                 self.inconclusive("monitor counter %s=%d < %d (deciding monitor not reached)" % (name, self.counters.get(name, 0), minimum))
         if len(self.sigs) < self.min_distinct:
             self.inconclusive("only %d distinct non-trivial cases (< %d)" % (len(self.sigs), self.min_distinct))
+        if not self.samples:
+            self.inconclusive("no samples recorded")
         if self.evaluations < 1:
             self.inconclusive("no evaluations")
         unknown = []
